@@ -10,6 +10,7 @@ package loading
 //@   requires [same_len] len(annotationLines) == len(annotationLineNumbers)
 
 //@ func (*makefileParser).parse(p) (pkg, found, err)
+//@   before_call append#1 [annotation_line_verbatim] len(arg2) == 1 && arg2[0] == sub(trimmedNext, 1, len(trimmedNext))
 //@ loop #2
 //@   invariant [same_len] len(annotationLines) == len(annotationLineNumbers)
 
